@@ -35,3 +35,19 @@ pub fn fmt_stub(_args: core::fmt::Arguments<'_>) -> String {
 /// where stubs are not applied and the real functions run.
 pub fn is_stubbed() -> bool { false }
 pub fn yes() -> bool { true }
+
+/// Element-wise model of `Vec::append`: Kani 0.68 / CBMC 6.11 return a spurious counterexample for the bulk copy in
+/// `append_elements` when the source was produced by slicing a trimmed string (reproduced in isolation, see DESIGN.md 1b).
+#[cfg(kani)]
+pub fn vec_append_stub<T, A: core::alloc::Allocator>(v: &mut Vec<T, A>, other: &mut Vec<T, A>) {
+    let n = other.len();
+    let mut i = 0;
+    while i < n {
+        unsafe {
+            let x = core::ptr::read(other.as_ptr().add(i));
+            v.push(x);
+        }
+        i += 1;
+    }
+    unsafe { other.set_len(0) };
+}
